@@ -262,6 +262,63 @@ def large_planted_tables(rng, n, kind, q=2, pairs=14):
     return L, R, planted
 
 
+# ----------------------------------------------------------------------------- structured ranks / variants
+
+def modular_tables(M, k=3, rng=None):
+    """M rows per table over a vocabulary of k*M tokens, every token exactly once per table (all
+    frequencies tie, so a token's rank is its alphabetical position); row j holds the tokens
+    j, j+M, ..., j+(k-1)M: the ranks of the tokens of one record are congruent modulo M.  The right
+    table holds the same sets in another word order and another row order.  Whatever folds ranks into
+    M (or a divisor of M) buckets -- bitmaps, bloom-like signatures, hash tables -- sees every record
+    as a single bucket."""
+    rng = rng or random.Random(M)
+    width = len(str(k * M))
+    def tok(i):
+        return 't%0*d' % (width, i)
+    lrows = [[j, ' '.join(tok(j + x * M) for x in range(k))] for j in range(M)]
+    order = list(range(M))
+    rng.shuffle(order)
+    rrows = [[1000000 + j, ' '.join(tok(j + x * M) for x in reversed(range(k)))] for j in order]
+    # a few near misses: two of three tokens shared
+    for j in range(0, M, max(1, M // 8)):
+        rrows.append([2000000 + j, ' '.join([tok(j), tok(j + M), 'zz%d' % j])])
+    return (T.table_spec(['id', 's'], lrows, dtypes={'s': 'object'}),
+            T.table_spec(['id', 's'], rrows, dtypes={'s': 'object'}))
+
+
+def variant_tables(rng, n_groups=12):
+    """Product-name variants: ADJACENT left rows share their rare leading tokens (the same prefix in
+    the global order) and differ in the number of frequent trailing tokens ('zx0a zx0b black steel
+    case' / '... pro mini'); the right table holds copies of some of the variants."""
+    common = ['black', 'steel', 'case', 'pro', 'mini', 'max', 'new', 'set', 'of', 'the']
+    lrows, rrows, lid, rid = [], [], 0, 0
+    for g in range(n_groups):
+        rare = ['zx%da' % g, 'zx%db' % g] + (['zx%dc' % g] if g % 3 == 0 else [])
+        variants = []
+        base = rng.sample(common, rng.randint(1, 3))
+        variants.append(rare + base)
+        for _ in range(rng.randint(1, 3)):
+            base = base + rng.sample([c for c in common if c not in base], rng.randint(1, 2))
+            variants.append(rare + base)
+        if rng.random() < 0.5:
+            variants.reverse()
+        for v in variants:
+            lrows.append([lid, ' '.join(v)])
+            lid += 1
+        for v in rng.sample(variants, rng.randint(1, len(variants))):
+            w = list(v)
+            rng.shuffle(w)
+            rrows.append([rid, ' '.join(w)])
+            rid += 1
+    for c in common:        # filler rows keep the trailing tokens frequent
+        lrows.append([lid, ' '.join(rng.sample(common, 4))])
+        rrows.append([rid, ' '.join(rng.sample(common, 3))])
+        lid += 1
+        rid += 1
+    return (T.table_spec(['id', 's'], lrows, dtypes={'s': 'object'}),
+            T.table_spec(['id', 's'], rrows, dtypes={'s': 'object'}))
+
+
 # ----------------------------------------------------------------------------- ubiquitous token
 
 def ubiquitous_tables(n, rng):
@@ -461,6 +518,7 @@ TOKENIZERS = [
     {'kind': 'alpha'}, {'kind': 'alnum'},
     {'kind': 'ws', 'user': 'lower'}, {'kind': 'delim', 'delims': [','], 'user': 'strip'},   # user subclasses
     {'kind': 'qgram', 'q': 2, 'padding': True, 'user': 'lower'}, {'kind': 'ws', 'user': 'memo'},
+    {'kind': 'ws', 'user': 'tolerant'},
     # pad characters other than '#' and '$' (the data may contain '#', '$', '^', '!')
     {'kind': 'qgram', 'q': 2, 'padding': True, 'prefix_pad': '^', 'suffix_pad': '!'},
     {'kind': 'qgram', 'q': 3, 'padding': True, 'prefix_pad': ' ', 'suffix_pad': ' '},
@@ -699,6 +757,8 @@ def random_table_pair(rng, tok=None, max_rows=12, missing=0.1, dup_rate=0.2, ext
             out[-1]['frame_class'] = 'user'          # a DataFrame subclass instance
         elif r < 0.07:
             out[-1]['dup_label'] = rng.choice(['note', 'zz', side + 'dupe'])
+        elif r < 0.11:
+            out[-1]['no_duplicate_labels'] = True
         if ik == 'keyname':
             out[-1]['index_name'] = side + 'id'
     return out[0], out[1], tok
@@ -764,7 +824,7 @@ def random_join_call(rng, api=None, tok=None, n_jobs_pool=(1, 1, 1, 2, 3), colli
     if rng.random() < 0.12:
         call['show_progress'] = True
     if rng.random() < 0.06:
-        call['threshold_np'] = True       # hand the threshold over as a numpy scalar
+        call['threshold_np'] = rng.choice([True, True, 'array0d'])       # a numpy scalar / 0-d array
     if rng.random() < 0.2:
         call['omit_defaults'] = True      # do not pass arguments that equal their default
     if rng.random() < 0.06:
